@@ -20,7 +20,7 @@ TECHNIQUE = 'differential execution on sqlite3: original single-integration quer
 RULE = ('queries = generated single-integration SELECT/UNION/CTE/window statements + dedicated alias-shadowing shapes, x 3-6 random states x '
         'catalog forms; negative variants counted separately; non-trivial = query with a join, subquery, CTE or set operation; distinct by '
         '(query, catalog form)')
-RULE += '; also: qualified names in every clause (HAVING with and without GROUP BY, ORDER/GROUP BY, CASE, ON, windows of every form, EXISTS, target sub-queries), CTE named like a table, one planner planning a sequence'
+RULE += '; the same statements through prepare_steps / execute_steps with some integer literals written as placeholders; also: qualified names in every clause (HAVING with and without GROUP BY, ORDER/GROUP BY, CASE, ON, windows of every form, EXISTS, target sub-queries), CTE named like a table, one planner planning a sequence'
 ASSUMPTIONS = ['sqlite3 reference engine with the integration ATTACHed under its name', 'output column names are compared case-insensitively for aliased and plain-column targets']
 BUDGET = {'quick': (8, 270), 'thorough': (16, 1800)}
 
@@ -95,7 +95,7 @@ NEGATIVE = [
 
 
 def floors(tier):
-    return {'compared': 1500, 'len:shadow_shapes': 32, 'negative_variants': 50, 'len:catalog_forms': 4}
+    return {'prepared_entry_compared': 100, 'compared': 1500, 'len:shadow_shapes': 32, 'negative_variants': 50, 'len:catalog_forms': 4}
 
 
 def ceilings(tier):
@@ -150,6 +150,46 @@ def catalogs(r, i):
     form = [0, 1, 2, 4][i % 4]
     kw, desc = fedgen.catalog(r, form=form)
     return kw, desc
+
+
+def via_prepared(text, kw, r):
+    """(steps via prepare/execute with placeholders, steps via prepare/execute of the literal text, text with ?, values) or None."""
+    from mindsdb_sql import parse_sql
+    from mindsdb_sql.planner import QueryPlanner
+    from mindsdb_sql.exceptions import PlanningException
+    from vf.props.c12 import FakeExecutor, strip_results
+    try:
+        toks = monitors.lex_all(text, 'mindsdb')
+    except Exception:
+        return None
+    cand = [t for j, t in enumerate(toks) if t[0] == 'INTEGER' and (j == 0 or toks[j - 1][0] not in ('LIMIT', 'OFFSET', 'COMMA', 'BY', 'MINUS'))]
+    if not cand:
+        return None
+    pick = sorted(r.sample(cand, min(len(cand), r.choice([1, 2, 3]))), key=lambda t: t[2])
+    qtext, vals, last = '', [], 0
+    for t in pick:
+        qtext += text[last:t[2]] + '?'
+        vals.append(int(text[t[2]:t[3]]))
+        last = t[3]
+    qtext += text[last:]
+
+    def steps_of(tx, values):
+        pl, ex = QueryPlanner(**copy.deepcopy(kw)), FakeExecutor()
+        for st in pl.prepare_steps(parse_sql(tx, 'mindsdb')):
+            st.set_result(ex.answer(st))
+        return monitors.struct(strip_results(list(pl.execute_steps(list(values)))))
+    try:
+        ref = steps_of(text, [])
+    except Exception:
+        return None
+    try:
+        got = steps_of(qtext, vals)
+    except (PlanningException, NotImplementedError) as e:
+        got = ('rejected', str(e)[:100])
+    except Exception as e:
+        # grammar does not read a placeholder there, or an internal error (C02 / C09's business)
+        return None
+    return got, ref, qtext, vals
 
 
 def run_shard(ctx):
@@ -245,6 +285,16 @@ def run_shard(ctx):
             acc.fail({'defect': kind_, 'shape': label}, det)
         elif len(acc.samples) < 5 and idx % 23 == 0:
             acc.sample({'text': text[:260], 'pushed_query': sql2[:260], 'catalog': desc, 'same_rows_and_names': True})
+        # the same statement through the prepared-statement entry point: some integer literals written as `?` and supplied at
+        # execute time must give the very plan that the literal text gives (one fetch, same pushed query)
+        if not bad and idx % 3 == 0:
+            via = via_prepared(text, kw, r)
+            if via is not None:
+                acc.count('prepared_entry_compared')
+                got, ref, qtext, vals = via
+                if got != ref:
+                    acc.fail({'defect': 'prepared-entry-point-plans-differently', 'shape': label},
+                             {'text': text, 'with_placeholders': qtext, 'values': vals, 'catalog': desc})
     # one planner object planning a sequence of statements (a CTE / alias in an earlier one is named like a table a later
     # one reads through the default namespace): each plan must be what a fresh planner produces, i.e. one fetch
     from mindsdb_sql.planner.query_planner import QueryPlanner
